@@ -57,3 +57,40 @@ func Tick(site string) {
 		panic(BudgetExceeded{site, n})
 	}
 }
+
+// Observation is one recorded call: the ring handed to a site and the ring it returned
+type Observation struct {
+	Site    string
+	In, Out [][2]float64
+}
+
+var (
+	observing    bool
+	observations []Observation
+)
+
+// StartObserving switches recording of Observe calls on (and forgets earlier observations)
+func StartObserving() {
+	mu.Lock()
+	defer mu.Unlock()
+	observing, observations = true, nil
+}
+
+// StopObserving switches recording off and returns what was recorded
+func StopObserving() []Observation {
+	mu.Lock()
+	defer mu.Unlock()
+	obs := observations
+	observing, observations = false, nil
+	return obs
+}
+
+// Observe records (copies of) the input and the output of a site while recording is on
+func Observe(site string, in, out [][2]float64) {
+	mu.Lock()
+	defer mu.Unlock()
+	if !observing {
+		return
+	}
+	observations = append(observations, Observation{site, append([][2]float64{}, in...), append([][2]float64{}, out...)})
+}
